@@ -957,6 +957,15 @@ def errors(source, model, wcshelper):
     else:
         source.err_a = source.err_b = ERR_MASK
 
+    # An uncertainty that is not a positive finite number was not determined.
+    # This happens when the covariance matrix is singular (stderr of nan, -2,
+    # 0 or inf) or when a finite but huge pixel error steps off the sky.
+    for attr in ['err_peak_flux', 'err_ra', 'err_dec',
+                 'err_pa', 'err_a', 'err_b']:
+        val = getattr(source, attr)
+        if val is None or not np.isfinite(val) or val <= 0:
+            setattr(source, attr, ERR_MASK)
+
     sqerr = 0
     sqerr += (source.err_peak_flux /
               source.peak_flux) ** 2 if source.err_peak_flux > 0 else 0
@@ -966,6 +975,8 @@ def errors(source, model, wcshelper):
         source.err_int_flux = ERR_MASK
     else:
         source.err_int_flux = abs(source.int_flux * np.sqrt(sqerr))
+        if not np.isfinite(source.err_int_flux) or source.err_int_flux <= 0:
+            source.err_int_flux = ERR_MASK
 
     return source
 
